@@ -504,7 +504,7 @@ def long_cases(r, n):
         elif k == 3:
             c = {"fam": "xts", "p": {"kl": r.choice([32, 64]), "ml": ml}}
         elif k == 4:
-            c = {"fam": "ccm", "p": {"kl": r.choice([16, 24, 32]), "ml": ml, "nl": r.randrange(7, 14), "aad": r.choice(["default", "a20", "a300"]),
+            c = {"fam": "ccm", "p": {"kl": r.choice([16, 24, 32]), "ml": ml, "nl": r.randrange(7, 14), "aad": r.choice(["default", "a20", "a300", "a300", "a300", "a300", "a300", "a65279", "a65280", "a70001"]),
                                      "tag": r.choice([0, 4, 8, 16]), "dv": r.choice(["same", "tagdefault", "flipct", "fliptag"])}}
         elif k == 5:
             c = {"fam": "hash", "p": {"alg": r.choice(["default", "sha1", "sha256", "sha384", "sha512", "md5", "sm3"]),
@@ -628,20 +628,58 @@ def api_key(ev, clause, exp, got):
     return f"C09/{ev['fn']}/{ev['pc']}/{cls}"
 
 
+_tv_serial = [0]
+
+
+def tv_parallel(module, traces, env, size):
+    """Batch trace validation in several JVMs side by side (forked workers; every worker gets its own range of lib.tlc's
+    scratch numbering). Returns (rejected {id: tuple}, distinct states)."""
+    parts = [traces[k:k + size] for k in range(0, len(traces), size)]
+    base = _tv_serial[0]
+    _tv_serial[0] += len(parts)
+    scratch()  # created before forking: all workers share the run's scratch directory
+
+    def job(i):
+        tlc._counter[0] = 100000 + 10 * (base + i)
+        _, res = tlc.tv("C09", module, parts[i], env=env, heap="4g", timeout=1500)
+        return rej_of(res), res.distinct
+
+    rej, distinct = {}, 0
+    for rj, d in fork_map(job, range(len(parts)), min(6, len(parts))):
+        rej.update(rj)
+        distinct += d
+    return rej, distinct
+
+
+_fork_fn = None
+
+
+def _fork_call(x):
+    return _fork_fn(x)
+
+
+def fork_map(fn, items, procs):
+    """lib.par.pmap without its sequential shortcut for fewer than four items (two big TLC jobs are worth two processes)."""
+    global _fork_fn
+    import multiprocessing as mp
+
+    items = list(items)
+    if procs <= 1 or len(items) <= 1:
+        return [fn(x) for x in items]
+    _fork_fn = fn
+    with mp.get_context("fork").Pool(procs) as pool:
+        return pool.map(_fork_call, items, chunksize=1)
+
+
 def validate_api(v, traces, label):
-    """TLC decides every trace. Returns {id: (matched, len, fn, clause, exp, got)} of rejected traces."""
-    all_rej = {}
-    chunk = 4000
-    for k in range(0, len(traces), chunk):
-        part = traces[k:k + chunk]
-        _, res = tlc.tv("C09", "ApiTrace", part, env={"CRC_MAX": CRC_MAX}, heap="8g", timeout=1500)
-        v.extra["tv_states"] = v.extra.get("tv_states", 0) + res.distinct
-        all_rej.update(rej_of(res))
+    """TLC decides every trace; every rejected one becomes a violation (or a machinery failure for the harness clauses)."""
+    all_rej, distinct = tv_parallel("ApiTrace", traces, {"CRC_MAX": CRC_MAX}, max(2700, (len(traces) + 5) // 6))
+    v.extra["tv_states"] = v.extra.get("tv_states", 0) + distinct
     by_id = {t["id"]: t for t in traces}
-    for tid, (matched, length, fn, clause, exp, got) in all_rej.items():
+    for tid, (matched, length, fn, clause, exp, got) in sorted(all_rej.items()):
         t = by_id[tid]
         ev = t["ev"][matched]
-        if clause in ("oracle", "link"):
+        if clause in ("oracle", "link", "concretise"):
             raise Machinery(f"[{label}] trace {tid} event {matched + 1} ({fn}): clause '{clause}' - the reference implementation / harness disagrees with the spec: "
                             + json.dumps({"case": t["case"], "ev": ev})[:1500])
         key = api_key(ev, clause, exp, got)
@@ -651,11 +689,10 @@ def validate_api(v, traces, label):
 
 
 def validate_counter(v, traces):
-    _, res = tlc.tv("C09", "CounterTrace", traces, heap="8g", timeout=1500)
-    rej = rej_of(res)
-    v.extra["tv_states"] = v.extra.get("tv_states", 0) + res.distinct
+    rej, distinct = tv_parallel("CounterTrace", traces, {}, max(5200, (len(traces) + 5) // 6))
+    v.extra["tv_states"] = v.extra.get("tv_states", 0) + distinct
     by_id = {t["id"]: t for t in traces}
-    for tid, (matched, length, op) in rej.items():
+    for tid, (matched, length, op) in sorted(rej.items()):
         t = by_id[tid]
         cls = counter_class(t, matched)
         v.violation(f"C09/Counter/{cls}", f"Counter history {tid}: after event #{matched + 1} ({op}) `.value` is not the spec's counter block "
@@ -773,7 +810,7 @@ def canary_api():
     want = {t["id"] for t in bad}
     if set(rej) != want:
         raise Machinery(f"API canary failed: rejected {sorted(rej)}; expected exactly {sorted(want)}\n" + "\n".join(str(x) for x in rej.items()))
-    mach = [k for k, x in rej.items() if x[3] in ("oracle", "link")]
+    mach = [k for k, x in rej.items() if x[3] in ("oracle", "link", "concretise")]
     if mach:
         raise Machinery(f"API canary: corrupted observations were attributed to the oracle clause: {mach}")
     return len(good), len(bad)
@@ -803,29 +840,14 @@ def canary_counter():
 
 # ------------------------------------------------------------------ run
 def side_by_side(fns):
-    """Run independent TLC jobs concurrently (started 0.3 s apart: lib.tlc numbers its scratch directories with a plain counter)."""
-    import threading
-    import time
+    """Run independent TLC jobs concurrently in forked workers (each with its own range of lib.tlc's scratch numbering)."""
+    scratch()
 
-    res, err = [None] * len(fns), []
+    def job(i):
+        tlc._counter[0] = 50000 + 100 * i
+        return fns[i]()
 
-    def work(i):
-        try:
-            res[i] = fns[i]()
-        except BaseException as e:  # noqa: BLE001 - re-raised in the caller's thread
-            err.append(e)
-
-    ts = []
-    for i in range(len(fns)):
-        t = threading.Thread(target=work, args=(i,))
-        t.start()
-        ts.append(t)
-        time.sleep(0.3)
-    for t in ts:
-        t.join()
-    if err:
-        raise err[0]
-    return res
+    return fork_map(job, range(len(fns)), len(fns))
 
 
 def jvm_stack():
@@ -881,7 +903,7 @@ def run(tier):
     cases += [{"fam": "crc", "p": {"alg": c["alg"], "msg": c["msg"]}} for c in crc_cases]
     for _ in range(150 if quick else 3000):  # more short CRC messages (TLC computes their CRC during TV)
         cases.append({"fam": "crc", "p": {"alg": r.choice(sorted(R.CRC_PARAMS)), "msg": B(rb(r, r.randrange(1, CRC_MAX + 1)))}})
-    reps = 1 if quick else 2
+    reps = 1 if quick else 3
     jobs = []
     for rep in range(reps):
         jobs += [(len(jobs) + i, c, rep) for i, c in enumerate(cases)]
@@ -889,20 +911,23 @@ def run(tier):
     jobs += [(n_enum + i, c, 0) for i, c in enumerate(long_cases(r, 120 if quick else 1500))]
     say(f"[C09] GEN done {v.timer.s()}s: {len(cases)} abstract cases, {len(jobs)} executions")
 
-    traces = pmap(run_case, jobs, chunksize=32)
-    v.count(len(traces))
-    for t in traces:
-        if any(e["out"]["k"] in ("ret", "err") for e in t["ev"]):
-            v.nontrivial(json.dumps(t["case"], sort_keys=True))
-    for i in (3, len(cases) // 3, n_enum - 5):
-        s = json.loads(json.dumps(traces[i]))
-        for e in s["ev"]:
-            e["tab"] = f"<{len(e['tab'])} primitive evaluations>"
-        v.sample(s)
-    say(f"[C09] executed {len(traces)} cases on the real wrappers {v.timer.s()}s")
-    validate_api(v, traces, "api")
-    v.traces(len(traces))
-    say(f"[C09] API traces validated {v.timer.s()}s")
+    batch = 16000
+    for b0 in range(0, len(jobs), batch):  # execute + validate in batches: bounded memory, TLC runs side by side
+        traces = pmap(run_case, jobs[b0:b0 + batch], chunksize=32)
+        v.count(len(traces))
+        for t in traces:
+            if any(e["out"]["k"] in ("ret", "err") for e in t["ev"]):
+                v.nontrivial(json.dumps(t["case"], sort_keys=True))
+        for i in (3, len(cases) // 3, n_enum - 5):
+            if b0 <= i < b0 + len(traces):
+                s = json.loads(json.dumps(traces[i - b0]))
+                for e in s["ev"]:
+                    e["tab"] = f"<{len(e['tab'])} primitive evaluations>"
+                v.sample(s)
+        validate_api(v, traces, "api")
+        v.traces(len(traces))
+        say(f"[C09] {b0 + len(traces)}/{len(jobs)} cases executed on the real wrappers and validated {v.timer.s()}s")
+        del traces
 
     # ---- Counter
     depth = 3
@@ -912,12 +937,12 @@ def run(tier):
     if len(hists) < 1000:
         raise Machinery(f"CounterGen produced only {len(hists)} behaviours")
     if not quick:
-        g2 = tlc.run("C09", "CounterGen", "CounterGen.cfg", env={"GEN_DEPTH": 12}, workers=1, deadlock=False, simulate="num=3000", depth=14, heap="8g")
+        g2 = tlc.run("C09", "CounterGen", "CounterGen.cfg", env={"GEN_DEPTH": 12}, workers=1, deadlock=False, simulate="num=6000", depth=14, heap="8g")
         more = [h for h in g2.json_prints() if isinstance(h, list)]
         if len(more) < 1000:
             raise Machinery(f"CounterGen simulation produced only {len(more)} behaviours")
         hists += more
-    hists += [random_history(r, r.randrange(1, 10)) for _ in range(1500 if quick else 30000)]
+    hists += [random_history(r, r.randrange(1, 10)) for _ in range(1500 if quick else 60000)]
     cjobs = [(i, h, 0) for i, h in enumerate(hists)]
     ctraces = pmap(replay_counter, cjobs, chunksize=256)
     v.count(len(ctraces))
@@ -925,15 +950,14 @@ def run(tier):
         v.nontrivial("counter:" + json.dumps([[e.get("op"), e.get("nonce", [0] * 16)[12:], e.get("cv"), e.get("k"), e.get("kg"), e.get("cvg"), e.get("be")] for e in t["ev"]]))
     v.sample(ctraces[len(ctraces) // 2])
     say(f"[C09] replayed {len(ctraces)} counter behaviours {v.timer.s()}s")
-    for k in range(0, len(ctraces), 20000):
-        validate_counter(v, ctraces[k:k + 20000])
+    validate_counter(v, ctraces)
     v.traces(len(ctraces))
 
     v.cov["rule"] = (
         f"API cases = initial states of WrapperApi ({len(cases) - len(crc_cases)} abstract cases: key size x message-length class x every optional parameter given / defaulted "
         f"independently on the encrypting and decrypting side x nonce / tag lengths x refused lengths x forgeries, 12 families) + all CRC messages of CrcMC + seeded short CRC "
         f"messages, each concretised {reps}x with seeded random bytes, + {len(jobs) - n_enum} sampled long-message cases; counter behaviours = all histories of length {depth} over the "
-        "CounterMC menus (TLC exhaustive)" + ("" if quick else " + 3000 simulated histories of length 12") + " + seeded random histories with arbitrary 32-bit words; a case is "
+        "CounterMC menus (TLC exhaustive)" + ("" if quick else " + 6000 simulated histories of length 12") + " + seeded random histories with arbitrary 32-bit words; a case is "
         "non-trivial if at least one real call returned a value or an SPSDK error; distinct by abstract case / by operation sequence with arguments"
     )
     v.cov["exhaustive"] = True
@@ -981,7 +1005,7 @@ def replay(path):
         say(json.dumps({k: x for k, x in e.items() if k != "tab"})[:600])
     if rej:
         matched, _, fn, clause, exp, got = rej[0]
-        if clause in ("oracle", "link"):
+        if clause in ("oracle", "link", "concretise"):
             raise Machinery(f"replay: clause {clause}")
         say(f"VIOLATION property=C09 replay={path}")
         say(f"  key={api_key(t['ev'][matched], clause, exp, got)}: event {matched + 1} ({fn}) clause '{clause}' (spec expects {exp}, observed {got})")
